@@ -25,3 +25,10 @@ func VerifNew(this discovery.Member, c *config.Config, primary, backup *partitio
 }
 
 func (r *RoutingTable) VerifSetOwned(n uint64) { r.ownedPartitionCount = n }
+
+// VerifAddMember registers a member in the routing table's member list (as a join event would).
+func (r *RoutingTable) VerifAddMember(m discovery.Member) {
+	r.members.Lock()
+	r.members.Add(m)
+	r.members.Unlock()
+}
